@@ -56,7 +56,7 @@ def limRead (w : W) (space : Nat) : W × Except RErr Bytes :=
         else ({ w1 with cur := cur' }, .ok bs)
 
 /-- `lineLimitReader.resume(limit, pending)`: the limit is put back after a BDAT chunk, the counter restarts and `pending` — the
-    buffered beginning of the next command lines, see `Server.cutAtBdat` — is counted. -/
+    buffered beginning of the next command lines, none since the length check in `readLine` — is counted. -/
 def resume (w : W) (limit : Nat) (pending : Bytes) : W :=
   if limit == 0 then { w with limit := 0, cur := 0 }
   else
@@ -131,7 +131,11 @@ def fuelOf (w : W) : Nat := (w.segs.map (fun s => s.length / 1 + 1)).sum + w.buf
 def readLine (w : W) : W × Except RErr Bytes :=
   let f := fuelOf w
   match readLineAux f f w [] with
-  | (w1, .ok l) => if w1.tripped then (w1, .error .tooLong) else (w1, .ok l)
+  | (w1, .ok l) =>
+    if w1.tripped then (w1, .error .tooLong)
+    -- a line that was buffered while the limit was lifted for a BDAT chunk: its length is checked where it is handed out
+    else if w1.limit > 0 && l.length + 1 > w1.limit then (w1, .error .tooLong)
+    else (w1, .ok l)
   | (w1, .error e) => (w1, .error e)
 
 /-- `bufio.Reader.ReadByte` -/
